@@ -14,7 +14,10 @@ CHUNK = 8
 
 def plan(ctx):
     n = ctx.n(2500, 60000)
-    return [('gen', engine.stable_hash((ctx.seed, 'c01', i))) for i in range(n)]
+    items = [('gen', engine.stable_hash((ctx.seed, 'c01', i))) for i in range(n)]
+    items += [('combined', engine.stable_hash((ctx.seed, 'c01c', i))) for i in range(ctx.n(700, 15000))]
+    items += [('real', engine.stable_hash((ctx.seed, 'c01r', i))) for i in range(ctx.n(200, 4000))]
+    return items
 
 
 def make_case(seed):
@@ -80,11 +83,11 @@ def line_matches(info, kind, text, meta, counters):
     return True, '', exp, obs
 
 
-def check_output(d, meta, out):
+def check_output(d, meta, out, events=None):
     """Match the model's events against the classified rows (with backtracking where a blank row
     may be either a separator or an empty hunk line).  Returns (ok, what, expected, observed, counters)."""
     infos = rows.classify_all(out)
-    events = d.events()
+    events = events if events is not None else d.events()
     counters = {'rows': len(infos), 'code_rows': sum(1 for x in infos if x.kind == 'code'), 'lines_matched': 0,
                 'file_rows': sum(1 for x in infos if x.kind == 'file'),
                 'hunk_rows': sum(1 for x in infos if x.kind == 'hunk'), 'truncated_lines': 0}
@@ -164,8 +167,166 @@ def check_output(d, meta, out):
     return False, what, exp, obs, counters
 
 
+def run_combined(seed):
+    """Combined (merge) diffs, with and without a conflict region."""
+    from .. import corpus
+    rng = engine.item_rng(seed)
+    conflict = rng.random() < 0.5
+    nparents = 2 if conflict else rng.choice([2, 2, 3])
+    lines, model, path = corpus.gen_combined(rng, conflict=conflict, nparents=nparents)
+    opts = gen.tagged_styles()
+    opts['--paging'] = 'never'
+    opts['--syntax-theme'] = rng.choice(['none', 'GitHub'])
+    T = gen.TAGS
+    opts['--merge-conflict-ours-diff-header-style'] = T['mc_ours']
+    opts['--merge-conflict-theirs-diff-header-style'] = T['mc_theirs']
+    opts['--merge-conflict-ours-diff-header-decoration-style'] = (T['mc_ours_dec'] + ' ' + rng.choice(['box', 'ul', ''])).strip()
+    opts['--merge-conflict-theirs-diff-header-decoration-style'] = (T['mc_theirs_dec'] + ' ' + rng.choice(['box', 'ul', ''])).strip()
+    cls = ['combined', 'conflict' if conflict else 'no-conflict', 'parents%d' % nparents]
+    tabs = 8
+    if rng.random() < 0.4:
+        opts['--line-numbers'] = True
+        cls.append('ln')
+    if rng.random() < 0.3:
+        b = rng.choice([0, 1, 2, 32])
+        opts['--line-buffer-size'] = b
+        cls.append('buf%d' % b)
+    if rng.random() < 0.3:
+        opts['--max-line-distance'] = rng.choice(['0', '0.6', '1'])
+    if rng.random() < 0.3:
+        opts['--width'] = rng.choice([60, 100, 'variable'])
+        cls.append('width')
+    res = runner.run_delta(gen.to_args(opts), ('\n'.join(lines) + '\n').encode())
+    c = crash_outcome(res, ID)
+    if c is not None:
+        return c
+    if res.rc != 0:
+        return inconclusive('exit %d' % res.rc)
+    infos = [i for i in rows.classify_all(res.out)]
+    # expected sequence of (kind, text)
+    exp = []
+    for m in model:
+        if m[0] == 'line':
+            _, prefix, text = m
+            k = '-' if '-' in prefix else ('+' if '+' in prefix else ' ')
+            exp.append((k, prefix + text))
+        else:
+            _, ours, anc, theirs = m
+            exp.append(('ours-header', None))
+            exp += [('-', t) for t in anc] + [('+', t) for t in ours]
+            exp.append(('theirs-header', None))
+            exp += [('-', t) for t in anc] + [('+', t) for t in theirs]
+    counters = {'rows': len(infos), 'lines_matched': 0, 'conflict_regions': 1 if conflict else 0}
+    sets = {'option_classes': cls, 'section_kinds': ['combined'], 'mode': ['pipe'], 'format': ['combined']}
+    seq = []
+    seen_hunk = False
+    for info in infos:
+        tags = {gen.TAG_BY_RGB.get(c_.fg) for c_ in info.row.cells}
+        if info.kind == 'hunk':
+            seen_hunk = True
+        elif info.kind == 'code':
+            seq.append((list(info.code_kinds)[0] if len(info.code_kinds) == 1 else 'mixed', info.code))
+        elif 'mc_ours' in tags:
+            seq.append(('ours-header', None))
+        elif 'mc_theirs' in tags:
+            seq.append(('theirs-header', None))
+        elif info.kind == 'blank' and seen_hunk:
+            seq.append(('blank', ''))
+    j = 0
+    for (k, t) in exp:
+        while j < len(seq) and seq[j][0] == 'blank' and not (k in '-+ ' and t is not None and t.strip() == ''):
+            j += 1
+        if j >= len(seq):
+            return violated('c01:combined:line-missing', 'a line of a combined diff is missing from the output', (k, t), 'end of output',
+                            run=res, counters=counters, sets=sets)
+        gk, gt = seq[j]
+        j += 1
+        if t is None:
+            if gk != k:
+                return violated('c01:combined:conflict-structure', 'expected the %s of the conflict region' % k, k, (gk, gt), run=res, counters=counters, sets=sets)
+            continue
+        if gk == 'blank' and t.strip() == '':
+            counters['lines_matched'] += 1
+            continue
+        if gk != k:
+            return violated('c01:combined:kind', 'line of a combined diff shown as the wrong kind', (k, t), (gk, gt), run=res, counters=counters, sets=sets)
+        e = rows.expand_tabs(t, tabs)
+        if not (gt.startswith(e) and gt[len(e):].strip(' ') == ''):
+            return violated('c01:combined:text', 'text of a combined-diff line differs', e, gt, run=res, counters=counters, sets=sets)
+        counters['lines_matched'] += 1
+    while j < len(seq):
+        if seq[j][0] in '-+ ' and seq[j][0] != 'blank':
+            return violated('c01:combined:extra-line', 'extra code row after the last expected line', None, seq[j], run=res, counters=counters, sets=sets)
+        j += 1
+    return held(sig=('combined', conflict, nparents, tuple(k for k, _ in exp), tuple(sorted(cls))), nontrivial=True, counters=counters, sets=sets,
+                sample={'args': gen.to_args(opts)[-6:], 'input_head': lines[4:10], 'conflict': conflict})
+
+
+def run_real(seed):
+    """Authentic git output (git diff / show / log -p on randomly edited scratch repositories); expected lines are read
+    from the plain diff using the hunk headers' counts."""
+    from .. import gitrepo
+    rng = engine.item_rng(seed)
+    repo = gitrepo.Repo(rng)
+    try:
+        repo.seed_files()
+        repo.random_edits()
+        which = rng.choice(['diff', 'show', 'log'])
+        gopts = rng.choice([[], ['-M'], ['-U0'], ['-U5']])
+        if which == 'diff':
+            repo.git('add', '-A', '-N')
+            out = repo.git('diff', '--color=never', *gopts)
+        else:
+            repo.commit('second\n\nbody text')
+            out = repo.git('show' if which == 'show' else 'log', '-p', '--color=never', *gopts) if which == 'log' else repo.git('show', '--color=never', *gopts)
+    finally:
+        repo.remove()
+    if not out.strip():
+        return inconclusive('empty git output')
+    text = out.decode('utf-8', 'replace')
+    in_lines = text.split('\n')[:-1]
+    roles = gen.roles_from_unified(in_lines)
+    opts, meta = gen.unified_options(rng, allow_raw_headers=False)
+    for k in ('--max-line-length', '--diff-highlight', '--diff-so-fancy'):
+        opts.pop(k, None)
+    meta['max_line_length'] = 3000
+    res = runner.run_delta(gen.to_args(opts), out)
+    c = crash_outcome(res, ID)
+    if c is not None:
+        return c
+    if res.rc != 0:
+        return inconclusive('exit %d' % res.rc)
+    sets = {'option_classes': meta['classes'], 'section_kinds': ['real-git-' + which], 'mode': ['pipe'], 'format': ['real']}
+    events = []
+    si = -1
+    hi = -1
+    for l, r in zip(in_lines, roles):
+        if r == 'header' and l.startswith('diff '):
+            si += 1
+            hi = -1
+            events.append(('file', si))
+        elif r == 'hunkheader':
+            hi += 1
+            events.append(('hunk', si, hi))
+        elif r == 'hunk':
+            events.append(('line', l[:1] if l else ' ', l[1:], None, None))
+        elif r == 'note':
+            events.append(('note', l))
+    # binary / mode-only sections: the header row still exists; fine for the matcher
+    ok, what, e, o, counters = check_output(None, meta, res.out, events=events)
+    if not ok:
+        return violated('c01:real:' + what.split(' (')[0][:60], what, e, o, run=res, counters=counters, sets=sets)
+    nlines = sum(1 for ev in events if ev[0] == 'line')
+    return held(sig=('real', which, tuple(gopts), tuple(r for r in roles if r != 'hunk')[:8], hash(out) & 0xffff), nontrivial=nlines > 0,
+                counters=counters, sets=sets, sample={'git': which, 'input_head': in_lines[:6]})
+
+
 def run_item(item):
-    _, seed = item
+    kind0, seed = item
+    if kind0 == 'combined':
+        return run_combined(seed)
+    if kind0 == 'real':
+        return run_real(seed)
     d, opts, meta, mode, size = make_case(seed)
     data = d.text().encode('utf-8')
     res = runner.run_delta(gen.to_args(opts), data, mode=mode, pty_size=size)
